@@ -22,6 +22,19 @@ def step(ctx, p):
         ctx.require(False, clause)
     for clause in sorted(set(nets.inv_H_public(H))):
         ctx.require(False, clause)
+    # every prefix: one further automatic addition from the reached state
+    nets.reencode(H)
+    x, y = ctx.fresh("x"), ctx.fresh("x")
+    ctx.assume(x != y, *[x != n for n in H._node], *[y != n for n in H._node])
+    try:
+        with __import__("warnings").catch_warnings():
+            __import__("warnings").simplefilter("ignore")
+            H.add_edge([x, y])
+            H.add_edges_from([[x]])
+    except Exception:
+        pass
+    for clause in sorted(set(nets.inv_H(H))):
+        ctx.require(False, "after a follow-up automatic addition: " + clause)
 
 
 @harness("C01.base")
